@@ -421,7 +421,10 @@ func propC14(o *out, r *rng, thorough bool) {
 	}
 	for _, w := range []string{"SELECT a INTO db.rp.t FROM m", "SELECT a INTO db.rp.:MEASUREMENT FROM /x/", "SELECT mean(a) FROM (SELECT b FROM /re/ WHERE x =~ /y/) GROUP BY time(1m), /h/ fill(3.5) ORDER BY time DESC tz('UTC')",
 		"SELECT mean(v) FROM m GROUP BY time(5m, now())", "SELECT mean(v) FROM m WHERE time > now() - 1h GROUP BY time(5m, now() - 1m), host", "SELECT 1 + 2, v + (2 * 3) AS x FROM m GROUP BY time(1m + 1m)",
-		"SELECT v FROM (SELECT v FROM m WHERE time > now() GROUP BY time(1m, now())) WHERE time < now() + 1h", "SELECT DISTINCT a FROM m", "SELECT count(DISTINCT a), top(b, c, 3) FROM m WHERE time > now() - 1h AND (h = 'x' OR h =~ /^a$/)"} {
+		"SELECT v FROM (SELECT v FROM m WHERE time > now() GROUP BY time(1m, now())) WHERE time < now() + 1h", "SELECT DISTINCT a FROM m", "SELECT count(DISTINCT a), top(b, c, 3) FROM m WHERE time > now() - 1h AND (h = 'x' OR h =~ /^a$/)",
+		// name queries that build scratch field lists or look through parentheses
+		"SELECT top(value, host, 2), other FROM cpu", "SELECT bottom(v, a, b, 3), x, y, z FROM cpu", "SELECT x, top(v, host, region, 1), y AS yy, z FROM m", "SELECT (a + b) FROM cpu", "SELECT (a), ((b)), (c + d) AS e FROM m",
+		"SELECT (value) FROM m WHERE (host) = 'a'", "SELECT top(v, t1, 2), top(v, t2, 2), w FROM m", "SELECT \"usage%\", \"usage%\" FROM m", "SELECT host::tag, v::float FROM m WHERE host::tag = 'a' AND v::float > 5"} {
 		c14One(o, w, r, "witness")
 	}
 	for i := 0; i < n; i++ {
